@@ -1218,6 +1218,25 @@ class Impl:
                 return "ranks-depend-on-the-timestamp-type"
         return sorted([a, b] for a, b in m.items())
 
+    def op_ptxts(self, kind, dst, cls, nd, *rest):
+        """parse_* on raw text with a comment marker / delimiter of several characters:
+        ptxts kind dst cls nd d1..dnd nc c1..cnc n (len codes)*   (nd = '-' : delimiter=None)"""
+        rest = list(rest)
+        if nd == "-":
+            d = None
+        else:
+            d = "".join(chr(int(c)) for c in rest[:int(nd)]); del rest[:int(nd)]
+        nc = int(rest[0]); cm = "".join(chr(int(c)) for c in rest[1:1 + nc]); del rest[:1 + nc]
+        k = int(rest[0]); rest = rest[1:]
+        lines, i = [], 0
+        for _ in range(k):
+            n = int(rest[i]); lines.append("".join(chr(int(c)) for c in rest[i + 1:i + 1 + n])); i += 1 + n
+        fn = _el.parse_interactions if int(kind) else _el.parse_snapshots
+        self.slots[int(dst)] = fn(lines, comments=cm, directed=bool(int(cls)), delimiter=d, nodetype=int, timestamptype=int)
+        for n in self.slots[int(dst)]._node:
+            self.rev.setdefault(n, n)
+        return "ok"
+
     def op_ptxt(self, kind, dst, cls, delim, comment, k, *rest):
         """parse_snapshots (kind=0) / parse_interactions (kind=1) on raw text lines given as char codes."""
         lines, i = [], 0
